@@ -185,7 +185,11 @@ func (uconn *UConn) uLoadSession() error {
 		if session.version == VersionTLS12 {
 			// We use the session ticket extension for tls 1.2 session resumption
 			uconn.sessionController.initSessionTicketExt(session, hello.sessionTicket)
-			uconn.sessionController.setSessionTicketToUConn()
+			if uconn.sessionController.state == SessionTicketExtInitialized {
+				// initSessionTicketExt skips (PreferSkipResumptionOnNilExtension) when the
+				// spec has no session ticket extension; then there is nothing to set.
+				uconn.sessionController.setSessionTicketToUConn()
+			}
 		} else {
 			uconn.sessionController.initPskExt(session, earlySecret, binderKey, hello.pskIdentities)
 		}
